@@ -99,7 +99,8 @@ def _point_value(kind, idx, name):
     shape = kind[1]
     base = REAL_POINTS[idx]
     if shape == ():
-        return Number(base)
+        # a 0-d Tensor rather than a Number: Gaussian substitution crashes on Number data
+        return Tensor(np.array(base, dtype=np.float64))
     n = int(np.prod(shape))
     # deterministic, name-dependent, non-constant sample point
     off = (sum(map(ord, name)) % 7) * 0.1
